@@ -214,6 +214,33 @@ def r4_stack_trace(ctx, rule="C11.R4"):
             region = mir.arm_region(interp.body, sw2.bb, sw2.arms.get("None", sw2.otherwise))
             if b not in region:
                 ok = False
+    # everywhere else in the VM: the list of active call sites changes only by insert / remove at the front
+    # (and is moved out where the error ends the program); truncating, clearing, appending at the far
+    # end, sorting ... makes the reported list differ from the calls that are active
+    n_other = 0
+    for f in sorted(prog.fns.values(), key=lambda x: x.id):
+        if f.crate != "rusty_basic" or f.body is None or "/interpreter/" not in (f.file or ""):
+            continue
+        fpv = mir.Prov(f.body)
+        for b, t in f.body.calls():
+            if not t["args"] or f.body.is_cleanup(b):
+                continue
+            o = mir.strip_refs(fpv.of_operand(t["args"][0]))
+            if not (o[0] == "field" and o[2] == "stacktrace"):
+                continue
+            nm = mir.callee_path(t).split("::")[-1]
+            if nm in ("len", "is_empty", "iter", "first", "last", "get", "clone", "as_slice", "deref",
+                      "with_stacktrace", "new_draining_stacktrace", "appen_draining_stacktrace"):
+                continue
+            n_other += 1
+            at_front = nm in ("insert", "remove") and len(t["args"]) > 1 and (t["args"][1].get("k") or {}).get("int") == 0
+            ctx.decide(at_front, rule, "%s:only-front-operations:%s:%s" % (rule, f.name, nm), "%s:%s" % (f.file, t.get("ln")),
+                       "%s at index 0" % nm,
+                       "%s applies `%s` to the list of active call sites: the list reported with an error no longer "
+                       "consists of exactly the calls that are active, innermost first, ending in the main module"
+                       % (f.name, nm))
+    if n_other < 3:
+        raise CheckError("%s: only %d operations on the stack trace found" % (rule, n_other))
     ctx.decide(ok and n == 1, rule, rule + ":drained-on-the-terminating-edge", interp.loc,
                "the trace is attached (and drained) only where the error ends the program",
                "interpret drains the stack trace outside the ErrorHandler::None edge")
